@@ -21,6 +21,17 @@ TRANSCRON_LOOP = _tc("trans_cron_nothing_missing", "trans_fires", "trans_zoneLoo
 TRANSCRON_C14 = TRANSCRON_LOOP + _tc("C14_sound_transCron", "C14_no_miss_transCron", "C14_expiry_transCron", "C14_terminates_transCron", "C14_total_transCron")
 TRANSCRON_C07 = _tc("trans_cron_nothing_missing", "trans_inScope", "trans_fillRangeValues", "trans_fillStepValues", "trans_cronField_add", "trans_dowShift", "trans_boundaryTable")
 
+# quartz/queue.go, job_key.go, matcher/*.go and the toolchain's container/heap/heap.go, translated by harness/cmd/gotolean-queue -> Generated/TransQueue.lean
+TRANSQUEUE = [("QuartzModel.Theorems.TransQueue", "TransQueue." + t) for t in [
+    "trans_queue_nothing_missing", "trans_queue_lockShape", "C11_inv_reachable_trans", "C11_pop_min_trans", "C11_head_min_trans",
+    "C11_push_replace_trans", "C11_push_duplicate_trans", "exQ_inv"]] + \
+    [("QuartzModel.Proofs.TransQueueLemmas", "TransQueue." + t) for t in [
+        "trans_less", "trans_swap", "trans_pq_push", "trans_pq_pop", "up_loop_eq", "trans_up", "down_loop_eq", "trans_down", "trans_heap_push", "trans_heap_pop",
+        "trans_heap_remove", "trans_scheduledJobs", "push_loop", "trans_qpush", "trans_qpop", "trans_qhead", "get_loop", "trans_qget", "remove_loop", "trans_qremove",
+        "trans_qsize", "trans_qclear", "trans_newJobQueue", "list_inner", "list_outer", "trans_qlist", "trans_strop", "trans_matcher_name", "trans_matcher_group",
+        "trans_matcher_status", "trans_matcher_ctors", "qerr_ne_nil", "qerr_injective"]] + \
+    [("QuartzModel.Proofs.TransQueueRunLemmas", "TransQueue." + t) for t in ["step_size_le", "tstep_sim", "trun_sim"]]
+
 ODO = [("QuartzModel.Proofs.Odometer", t) for t in ["Odo.findForward_spec", "Odo.loop_fuel", "Odo.μ6_measure"]]
 
 # the dispatch step and the API calls are atomic with respect to each other because of the queue lock: its facts are obligations
@@ -129,7 +140,9 @@ THEOREMS = {
            # interleaving of calls is a sequential order of them and the array a thread finds is a heap with unique keys
            [("QuartzModel.Theorems.C11Lin", "Queue." + t) for t in ["C11_queue_lock_facts", "C11_queue_array_confined", "pushOp_run", "qcallOp_run",
                                                                    "C11_linearizable", "qcall_inv", "C11_concurrent_inv"]] +
-           [("QuartzModel.Concurrency.Lock", "Lock.linearizable")],
+           [("QuartzModel.Concurrency.Lock", "Lock.linearizable")] +
+           # the queue model IS the code (container/heap of the toolchain included): translated definitions = hand-written model, C11 theorems transferred
+           TRANSQUEUE,
     "C01": FACTS + TRANS + TRANSCRON_LOOP + _tc("C01_sound_transCron") + ODO + [("QuartzModel.Theorems.C01", "Cron.C01_sound"), ("QuartzModel.Theorems.CronCode", "Cron.C01_sound_code"),
                           ("QuartzModel.Proofs.CronAssembly", "Cron.allValid_iff_matches"), ("QuartzModel.Proofs.DaySpec", "Cron.dayValid_iff"),
                           ("QuartzModel.Proofs.CalendarLemmas", "Cal.Civil.ofSeconds_toSeconds"), ("QuartzModel.Proofs.CalendarLemmas", "Cal.Civil.toSeconds_lt_iff")],
